@@ -31,6 +31,16 @@ Theorem C16_lookup_is_count : forall m off, sorted (contexts m) ->
   get_context_from_offset m off = count_le off (contexts m).
 Proof. exact lookup_is_count. Qed.
 
+(* spanning a node from its first to its last token (parser) never trips an assert and
+   yields exactly (file, first start, last end) *)
+Theorem C16_surrounding_span_valid : forall m ia ib c sa ea sb eb,
+  wf m ->
+  get_span src_consts m ia = Ok (c, sa, ea) -> get_span src_consts m ib = Ok (c, sb, eb) ->
+  in_range m (c, sb, eb) -> sa <= eb ->
+  exists m' id, make_surrounding_span src_consts m ia ib = Ok (m', id) /\
+                (small m' -> get_span src_consts m' id = Ok (c, sa, eb)).
+Proof. intros *. exact (surrounding_span_valid src_consts m ia ib c sa ea sb eb C16_consts_ok). Qed.
+
 Theorem C16_crop_slices_in_range : forall stack_len max_trace f h s,
   crop stack_len max_trace = Some (f, h, s) ->
   f <= stack_len /\ s <= stack_len /\ f + s = max_trace /\
@@ -51,5 +61,6 @@ Print Assumptions C16_consts_ok.
 Print Assumptions C16_span_history_roundtrip.
 Print Assumptions C16_span_valid_request_accepted.
 Print Assumptions C16_lookup_is_count.
+Print Assumptions C16_surrounding_span_valid.
 Print Assumptions C16_crop_slices_in_range.
 Print Assumptions C16_nonvacuous.
